@@ -2,6 +2,7 @@
 // behind the line protocol.  Streams are delivered through a socketpair (or loopback TCP for `tcp`),
 // completely written and half-closed by the peer before the server side starts reading.
 #include "common.h"
+#include <asl/WebSocket.h>
 #include <asl/String.h>
 #include <asl/Http.h>
 #include <asl/HttpServer.h>
@@ -318,11 +319,44 @@ static void removeFiles()
 	}
 }
 
+
+// ---------------------------------------------------------------- Upgrade hand-off tap
+static int g_tapFd = -1;          // a dup of the server-side descriptor of the connection under test
+static bool g_tapDone = false;
+static std::string g_tapRest;     // the bytes still unread on the connection at the hand-off
+
+static void tapNow()
+{
+	if (g_tapDone || g_tapFd < 0) return;
+	g_tapDone = true;
+	char buf[65536];
+	int fl = fcntl(g_tapFd, F_GETFL);
+	fcntl(g_tapFd, F_SETFL, fl | O_NONBLOCK);
+	for (;;)
+	{
+		ssize_t k = ::read(g_tapFd, buf, sizeof buf);
+		if (k <= 0) break;
+		g_tapRest.append(buf, (size_t)k);
+	}
+	fcntl(g_tapFd, F_SETFL, fl);
+}
+
+struct WsTap : public WebSocketServer
+{
+	bool served;
+	WsTap() : served(false) {}
+	void serve(WebSocket&) { served = true; tapNow(); }
+};
+
+static HttpServer* g_up = 0;
+static WsTap* g_upWs = 0;
+
 static void cleanup()
 {
 	if (g_tcp) { g_tcp->stopTcp(); if (!g_tcp->running()) { delete g_tcp; g_tcp = 0; } }
 	removeFiles();
 	delete g_files; g_files = 0;
+	delete g_up; g_up = 0; delete g_upWs; g_upWs = 0;
 	delete g_rec; g_rec = 0;
 }
 
@@ -528,6 +562,61 @@ static std::string step(const Toks& t)
 		size_t cl = out.find("\r\nContent-Length: ");
 		if (cl != std::string::npos && he != std::string::npos && cl < he) len = atoll(out.c_str() + cl + 18);
 		return "status=" + str(code) + " len=" + str(len);
+	}
+	if (op == "rng" && t.size() == 3)
+	{
+		// Range parser: one GET for a file of the fixture with the given Range value; status, Content-Range, Content-Length
+		if (!g_files) setupFiles();
+		static const char* paths[] = { "/a.txt", "/e.bin", "/sub/b.txt" };
+		Conn p(std::string("GET ") + paths[atoi(t[1].c_str()) % 3] + " HTTP/1.1\r\nRange: " + unhex(t[2]) + "\r\n\r\n");
+		if (!p.ok) return "stream-too-big";
+		std::string out;
+		{
+			Socket c(new Socket_(p.srv));
+			((SocketServer*)g_files)->serve(c);
+			p.drain();
+			c.close();
+			out = p.finish();
+		}
+		if (out.find(g_secret) != std::string::npos) return "leak: response contains a file from outside the root";
+		if (out.compare(0, 7, "HTTP/1.") != 0) return "status=none";
+		int code = atoi(out.c_str() + 9);
+		long long len = -1;
+		std::string cr = "-";
+		size_t he = out.find("\r\n\r\n");
+		size_t cl = out.find("\r\nContent-Length: ");
+		if (cl != std::string::npos && he != std::string::npos && cl < he) len = atoll(out.c_str() + cl + 18);
+		size_t cp = out.find("\r\nContent-Range: ");
+		if (cp != std::string::npos && he != std::string::npos && cp < he)
+		{
+			size_t e = out.find("\r\n", cp + 2);
+			cr = out.substr(cp + 17, e - cp - 17);
+			for (size_t i = 0; i < cr.size(); i++) if (cr[i] == ' ') cr[i] = '_';
+		}
+		long long blen = he == std::string::npos ? -1 : (long long)(out.size() - he - 4);
+		return "status=" + str(code) + " cr=" + cr + " len=" + str(len) + " body=" + str(blen);
+	}
+	if (op == "upg" && t.size() == 3)
+	{
+		// Upgrade hand-off: request head and first frame bytes arrive together; what is still unread on the connection
+		// when the WebSocket server takes over
+		if (!g_up) { g_up = new HttpServer(-1); g_upWs = new WsTap; g_up->link(*g_upWs); }
+		Conn p(unhex(t[1]) + unhex(t[2]));
+		if (!p.ok) return "stream-too-big";
+		g_tapFd = p.dupfd; g_tapDone = false; g_tapRest.clear(); g_upWs->served = false;
+		std::string out;
+		{
+			Socket c(new Socket_(p.srv));
+			((SocketServer*)g_up)->serve(c);
+			bool ws = g_upWs->served;
+			// process() answering 400 (no `Connection: Upgrade`) returns at once: the connection is as it was handed over
+			if (!ws) tapNow();
+			c.close();
+			out = p.finish();
+			g_tapFd = -1;
+			if (ws || out.compare(0, 24, "HTTP/1.1 400 Bad request") == 0) return "ho=1 rest=" + brep(g_tapRest);
+		}
+		return "ho=0";
 	}
 	if (op == "url" && t.size() == 2)
 	{
